@@ -141,8 +141,12 @@ def zip_pairs(rng, n):
             ext = (mode << 16) if system == 3 else 0
             content.append((name, flags, method, data, cdata, system, ext))
 
+        def later_dos():
+            t = later(rng, epoch, C03.DOS_HI)
+            return t if t - t % 2 > epoch else t + 2        # later than the epoch on the 2-second DOS grid too
+
         def nd():
-            return [(later(rng, epoch, C03.DOS_HI), rng.randrange(4), rng.choice([0, 1000, 65534]), rng.choice([0, 100, 1000])) for _ in content]
+            return [(later_dos(), rng.randrange(4), rng.choice([0, 1000, 65534]), rng.choice([0, 100, 1000])) for _ in content]
         handler = rng.choice(["zip", "jar"])
         out.append((handler, epoch, [zip_build(content, nd()) for _ in range(2 + rng.randrange(2))], ["zip", "members%d" % len(content)], epoch + 5))
     return out
